@@ -46,6 +46,8 @@ M = [
         (P, "        for name, arg in zip(in_names, args):\n            if name in kwargs:", "        for i, (name, arg) in enumerate(zip(in_names, args)):\n            expected = Type._from_onnx(model.graph.input[i].type)\n            if arg.type is not None and not arg.type._subtype(expected):\n                raise TypeError('boundary')\n            if name in kwargs:")]),
     ("C13", "r10: `broadcast` lenient when a symbolic axis is present (constant clash becomes an unknown dimension)", [(S, '        except ShapeError as e:\n            raise ShapeError(\n                f"Could not broadcast shapes: {self.to_simple()}, {other.to_simple()}."\n            ) from e', '        except ShapeError as e:\n            if any(not isinstance(d, int) for d in a + b):  # symbolic: let the runtime decide\n                return Shape.from_simple(tuple(\n                    None if (isinstance(x, int) and isinstance(y, int) and x != y and 1 not in (x, y)) else _broadcast_elem(x, y)\n                    for x, y in zip(a, b)))\n            raise ShapeError(\n                f"Could not broadcast shapes: {self.to_simple()}, {other.to_simple()}."\n            ) from e')]),
     ("C13", "r10: `can_broadcast` answers False early when the ranks differ and the shorter shape has no 1", [(S, '        """Check if this shape can be broadcast with ``other``."""\n        try:\n', '        """Check if this shape can be broadcast with ``other``."""\n        o = other if isinstance(other, Shape) else Shape.from_simple(other)\n        if self.dims is not None and o.dims is not None and len(self.dims) != len(o.dims):\n            short = min(self.to_simple(), o.to_simple(), key=len)\n            if short and 1 not in short:\n                return False\n        try:\n')]),
+    ("C13", "r10: `unwrap_tensor` looks through an Optional", [(T, '        if not isinstance(self, Tensor):\n            raise TypeError(f"Cannot unwrap requested Tensor type from {self}")', '        if isinstance(self, Optional) and isinstance(self.elem_type, Tensor):\n            return self.elem_type\n        if not isinstance(self, Tensor):\n            raise TypeError(f"Cannot unwrap requested Tensor type from {self}")')]),
+    ("C13", "r10: `Shape.__getitem__` counts negative indices from the padded rank (off by one)", [(S, "        return self.dims[item]\n", "        return self.dims[item - 1 if isinstance(item, int) and item < -1 else item]\n")]),
     # ------------------------------------------------------------------ C16
     ("C16", "fix reverted in `type_warning_level` (no try/finally)", [(F, "    try:\n        yield\n    finally:\n        set_type_warning_level(prev_level)", "    yield\n    set_type_warning_level(prev_level)")]),
     ("C16", "fix reverted in `operator_overloading`", [(F, "    try:\n        yield\n    finally:\n        Var._operator_dispatcher = prev_dispatcher", "    yield\n    Var._operator_dispatcher = prev_dispatcher")]),
